@@ -160,6 +160,7 @@ func (c *checker) run(id string) int {
 	var samples []interface{}
 	totalViol := 0
 	var pendingReplay []replayCase
+	var stubViol, stubInconcl []string
 	nat := newNative(c)
 	type hres struct {
 		rep *gosym.Report
@@ -193,6 +194,33 @@ func (c *checker) run(id string) int {
 	for _, r := range results {
 		rep, h := r.rep, r.h
 		seen := map[string]bool{}
+		if strings.HasSuffix(h, "_stub") {
+			// harness depends on the TLS stub: it cannot be compiled against
+			// the real crypto/tls meaningfully, so counterexamples are
+			// confirmed by a pinned re-execution inside the engine only.
+			for _, v := range rep.Violations {
+				if !v.Unlisted || seen[v.Label] {
+					continue
+				}
+				seen[v.Label] = true
+				rc := replayCase{Property: id, Harness: h, Label: v.Label, Inputs: v.Inputs, Kinds: v.Kinds, Sched: v.Sched, Tier: c.tierN(), Detail: v.Pos, kind: "violation"}
+				res := gosym.RunPinnedOnce(prog, h, v.Inputs, v.Sched, c.tierN())
+				confirmed := false
+				for _, pv := range res.Violations {
+					if pv.Label == v.Label {
+						confirmed = true
+					}
+				}
+				if confirmed {
+					path := c.writeReplay(rc)
+					stubViol = append(stubViol, fmt.Sprintf("VIOLATION property=%s replay=%s", id, path))
+					fmt.Fprintf(os.Stderr, "violation (TLS-stub harness, confirmed by pinned re-execution in the engine): harness=%s label=%s %s inputs=%v\n", h, v.Label, v.Pos, v.Inputs)
+				} else {
+					stubInconcl = append(stubInconcl, fmt.Sprintf("%s: counterexample for %q does not reproduce under pinned re-execution", h, v.Label))
+				}
+			}
+			continue
+		}
 		for _, v := range rep.Violations {
 			if !v.Unlisted {
 				continue
@@ -222,6 +250,9 @@ func (c *checker) run(id string) int {
 			nativeErr = err.Error()
 		}
 	}
+	violLines = append(violLines, stubViol...)
+	totalViol += len(stubViol)
+	inconcl = append(inconcl, stubInconcl...)
 	byHarness := map[string]*harnessSummary{}
 	for _, r := range results {
 		rep, h := r.rep, r.h
